@@ -1,6 +1,7 @@
 import Umya.Driver.Proto
 import Umya.Model.Annot
 import Umya.Driver.C06View
+import Umya.Driver.C06Codec
 namespace Umya.Driver.C06
 open Umya.Annot Umya.Coord Umya.Proto Umya.XmlEsc
 
@@ -123,6 +124,9 @@ def handle (st : St) (args : List String) : St × String :=
         (st, s!"authors={",".intercalate (tbl.map (fun a => hx (escape a)))};ids={",".intercalate ids};r={r}")
       else (st, "bad-perm")
     | _, _ => (st, "bad-op")
-  | _ => (st, "bad-op")
+  | _ =>
+    match Umya.Driver.C06Codec.handle args with
+    | some r => (st, r)
+    | none => (st, "bad-op")
 
 end Umya.Driver.C06
